@@ -670,7 +670,7 @@ fn gen(rng: &mut Rng) -> String {
             if rng.chance(1, 2) {
                 li.reverse();
             }
-            T::L(vec![T::I(*rng.pick(&[KERN, MARK, MKMK, DIST, DIST, MARK, CURS, LIGA])), T::of_ints(&li)])
+            T::L(vec![T::I(*rng.pick(&[KERN, KERN, MARK, MARK, MARK, MKMK, MKMK, DIST, DIST, DIST, CURS, LIGA])), T::of_ints(&li)])
         })
         .collect();
     let feature_tags: Vec<i64> = features.iter().map(|f| f.list()[0].int()).collect();
@@ -687,8 +687,8 @@ fn gen(rng: &mut Rng) -> String {
     let scripts = match rng.below(12) {
         0 => T::none(),
         1 => T::some(T::L(vec![])),
-        2..=5 => T::some(T::L(vec![T::L(vec![T::I(DFLT), script(rng)])])),
-        6..=8 => T::some(T::L(vec![T::L(vec![T::I(LATN), script(rng)])])),
+        2..=6 => T::some(T::L(vec![T::L(vec![T::I(DFLT), script(rng)])])),
+        7 => T::some(T::L(vec![T::L(vec![T::I(LATN), script(rng)])])),
         _ => T::some(T::L(vec![T::L(vec![T::I(DFLT), script(rng)]), T::L(vec![T::I(LATN), script(rng)])])),
     };
     let feature_list = if rng.chance(1, 30) { T::none() } else { T::some(T::L(features)) };
@@ -729,17 +729,17 @@ fn gen(rng: &mut Rng) -> String {
 
     let run = match rng.below(10) {
         0..=6 => {
-            let script_tag = *rng.pick(&[LATN, LATN, DFLT, CYRL]);
+            let script_tag = *rng.pick(&[LATN, LATN, LATN, DFLT, DFLT, CYRL]);
             let lang = match rng.below(4) {
                 0 => T::some(T::I(ENG)),
                 1 => T::some(T::I(DFLT)),
                 _ => T::none(),
             };
-            let nf = rng.range(0, 3);
+            let nf = if rng.chance(1, 2) { nfeat } else { rng.range(0, 3) };
             let feats: Vec<i64> = (0..nf)
                 .map(|_| if rng.chance(4, 5) { feature_tags[rng.below(feature_tags.len() as u64) as usize] } else { *rng.pick(FEATURE_TAGS) })
                 .collect();
-            T::L(vec![T::I(0), T::I(script_tag), lang, T::of_ints(&feats), T::I(rng.range(0, 1)), kern, dir, T::of_ints(&advs)])
+            T::L(vec![T::I(0), T::I(script_tag), lang, T::of_ints(&feats), T::I(if rng.chance(3, 4) { 1 } else { 0 }), kern, dir, T::of_ints(&advs)])
         }
         7 | 8 => {
             let pls: Vec<T> = (0..n)
